@@ -3,7 +3,9 @@ import LenaModel.Model.C16
 
 `Model/C16.lean` hands the wrapped element's `run` a list and assumes it is read completely.  A Run element
 may stop reading early (`Slice(1)`, anything that breaks the flow).  This file transcribes the three
-variants of `FillRequest._run_run` (`lena/core/adapters.py:545-620`) for such an element: what matters is how
+variants of `FillRequest._run_run` for such an element — as they are now (`runRunYorQ`, `runRunBIP`, `runRunBOQ`,
+`runRunQ`: since fix dbe92ef the rest of a block is skipped) and, pinned, as they were before that fix
+(`runRunYorP`, `runRunBOP`, `runRunP`, `lena/core/adapters.py:545-620` of the anchored revision): what matters is how
 many values of the block the element pulled from the iterator it was given, and whether it ran into the end
 of that iterator (only then does the generator of `slice_iterated_with_count` reach `self.count = count`).
 
@@ -83,11 +85,51 @@ def runRunBOP (e : ElR σ α β) (N : Nat) (rst : Bool) : Nat → Nat → σ →
         let q := runRunBOP e N rst fuel cnt' s2 (xs.drop (readOf r block))
         (r.1 ++ q.1, q.2)
 
-/-- `FillRequest.run` bound to `_run_run`, by the flags -/
+/-- the three loops above transcribe `_run_run` as it was BEFORE fix dbe92ef (notes/C16_defect_1); they are kept for the
+counterexamples about that code.  `runRunP`: that `_run_run`, by the flags -/
 def runRunP (e : ElR σ α β) (N : Nat) (rst bi yor : Bool) (s : σ) (xs : List α) : List β × Bool :=
   if yor then ((runRunYorP e N rst s xs).1, false)
   else if bi then ((runRunBIP e N rst s xs).1, false)
   else let r := runRunBOP e N rst (xs.length + 2) 0 s xs; (r.1, r.2.2)
+
+/-! ## `_run_run` of /repo now (fix dbe92ef): what the element leaves unread of its block is skipped -/
+
+/-- branch `if self._yield_on_remainder:`: `block = chain([val], islice(flow, bufsize-1))`, `el_run(block)` consumed,
+then `for _ in block: pass` — the flow has lost the whole block whatever the element read -/
+def runRunYorQ (e : ElR σ α β) (N : Nat) (rst : Bool) (s : σ) (xs : List α) : List β × σ :=
+  match xs with
+  | [] => ([], s)
+  | x :: rest =>
+    let block := x :: rest.take (N - 1)
+    let r := e.run s block
+    let s2 := if rst then e.reset r.2.1 else r.2.1
+    let q := runRunYorQ e N rst s2 (rest.drop (N - 1))
+    (r.1 ++ q.1, q.2)
+termination_by xs.length
+decreasing_by simp only [List.length_drop, List.length_cons]; omega
+
+/-- buffer-output branch: a new `slice_iterated_with_count(bufsize, flow)` per block (an iterator that counts every value it
+gives out), `results = list(el_run(slice_))`, `for _ in slice_: pass` (the rest is skipped and counted), `if slice_.count <
+bufsize: return` — `count` is the length of the block -/
+def runRunBOQ (e : ElR σ α β) (N : Nat) (rst : Bool) (s : σ) (xs : List α) : List β × σ :=
+  if hN : N = 0 then ([], s)
+  else
+    let block := xs.take N
+    let r := e.run s block
+    if hlen : (xs.take N).length < N then ([], r.2.1)
+    else
+      let s2 := if rst then e.reset r.2.1 else r.2.1
+      let q := runRunBOQ e N rst s2 (xs.drop N)
+      (r.1 ++ q.1, q.2)
+termination_by xs.length
+decreasing_by
+  simp only [List.length_take] at hlen; simp only [List.length_drop]; omega
+
+/-- `FillRequest.run` bound to `_run_run` (the code of /repo now), by the flags; the `buffer_input` branch is unchanged -/
+def runRunQ (e : ElR σ α β) (N : Nat) (rst bi yor : Bool) (s : σ) (xs : List α) : List β × σ :=
+  if yor then runRunYorQ e N rst s xs
+  else if bi then runRunBIP e N rst s xs
+  else runRunBOQ e N rst s xs
 
 /-- the statement's reading for a Run element: each consecutive block of `N` values is handed to the element
 (which reads as much of it as it likes); full blocks always, the last partial block iff `yor` -/
